@@ -10,7 +10,7 @@ from simkit import gen, model
 from simkit.harness import HarnessError, World
 from simkit.seam import REAL
 
-TIERS = {"C09": {"quick": 2400, "thorough": 40000}}
+TIERS = {"C09": {"quick": 2400, "thorough": 20000}}
 LEVEL = {"C09": "exploration"}
 RULE = {
     "C09": "scenario = (prior workspace, target index) drawn independently over one small name "
